@@ -867,7 +867,11 @@ func fromV3RequestBodies(name string, requestBodyRef *openapi3.RequestBodyRef, c
 			}
 			consumes[contentType] = struct{}{}
 			if contentType == "application/x-www-form-urlencoded" || contentType == "multipart/form-data" {
-				formParameters = FromV3RequestBodyFormData(mediaType)
+				// the form media types share one schema object and FromV3SchemaRef clears Nullable on the
+				// items it visits: read the form fields once
+				if formParameters == nil {
+					formParameters = FromV3RequestBodyFormData(mediaType)
+				}
 				continue
 			}
 
